@@ -27,7 +27,8 @@ RULE = ("cases: create_from_fixed_nb_of_points (dyadic h, nb 0..60, dim 1..3), C
         "geometric constructors with h <= 0 / nan (audit witness h=-1, (-5,3), nb=3; random bounds dim 1..3; real HEM model and its SDE "
         "wrapper through the real root search; rational-ratio bounds incl. ratios < 1) must refuse with the guard ValueError; regular "
         "states of compute_right_axis (constant density, HEM) against ps_axis with the closed-form root (interval lemmas).  "
-        "non-trivial = distinct case with >= 2 states on a side or >= 1 refinement")
+        "non-trivial = distinct case with >= 2 states on a side or >= 1 refinement.  "
+        "TIE spot check (wave 8): the generated TIE definitions are spot-checked against the running Python on every run -- groups dispatch_c1d (left_point / right_point / grid[position] on real Coordinate1D objects), dispatch_nd2 (left_point / right_point / middle on real CoordinateND objects of two-axis grids with axes of unequal lengths, incl. the origin on the last point of a shorter first axis), q_vector and intensity_1d of harness/tie_selftest.py (12 cases each, kind tie_spot): the GenTieChain definitions evaluated by vm_compute against the real CTMCGrid methods and create_q_vector / compute_intensity_of_jumps, dyadic axes, exact")
 MODELLED = ["wave 8: CTMCGridProbabilityStep argument guards: minimum_probability_step > 0 (probstep_ctor; /repo be7f020) and float half axes for an int h "
             "(np.insert(axis, 0, v) = v :: axis holds for float arrays only; /repo c939deb; the harness now also passes Python-int h); NOT evaluated by any "
             "case: ps_axis on the left side, CTMCGridProbabilityStep.middle's fall-backs",
@@ -56,7 +57,8 @@ MODELLED = ["wave 8: CTMCGridProbabilityStep argument guards: minimum_probabilit
             "extrapolated last point, try branch, bare-except branch incl. first-root-found/second-raised, np.append / np.insert(.,0,.) / "
             "[1:] / [:-1]) and the assembly of CTMCGridProbabilityStep.__init__: Model/ProbStepLoop.v, over Q, with the quadrature test "
             "and the root finder as ARBITRARY oracle functions (root x = None: the call raised) and a fuel for `while True`; tied by "
-            "vm_compute on recorded oracle answers (any measure, 1e-12) and on Coq-defined oracles (constant density, 1e-9)"]
+            "vm_compute on recorded oracle answers (any measure, 1e-12) and on Coq-defined oracles (constant density, 1e-9)",
+            "TIE spot check (wave 8): the generated TIE definitions are spot-checked against the running Python on every run (correspond -> tie_selftest.selftest_spotchecks on the GenTie modules of GEN_DEPS: the functions are called on real CTMCGrid / Coordinate objects, so the singledispatch variant actually taken, CTMCGrid.__init__ and other caller-visible edits the translator cannot see are exercised); a disagreement is a broken obligation 'correspondence TIE <group>'"]
 ASSUMPTIONS = ["grid.middle returns a point strictly inside a gap, and x/2 next to the origin (hypotheses mid_between, mid_left0, "
                "mid_right0): proved for CTMCGrid.middle (C13_amid_ok); for CTMCGridProbabilityStep.middle checked by the oracle on "
                "every refined grid (brentq bracket), not proved",
@@ -353,11 +355,32 @@ UNIFORM_CASES = []
 
 
 # ------------------------------------------------------------------------------------------ correspondence
+def _tie_spot(res):
+    """cross-cutting TIE layer (DESIGN 2.2a): the GENERATED GenTie* definitions of GEN_DEPS (just regenerated and compiled by the driver)
+    against the RUNNING Python functions on real objects, dyadic inputs, exact, one coqc (harness/tie_selftest.py: q_vector, intensity_1d, dispatch_c1d, dispatch_nd2)"""
+    try:
+        import tie_selftest
+        out = tie_selftest.selftest_spotchecks([m for m in GEN_DEPS if m.startswith("GenTie")], res.seed, name=PROP)
+    except Exception as e:  # noqa: BLE001 -- the implementation raised on a spot-check input, or the case file does not compile
+        res.broke("correspondence TIE spot check", f"could not run: {type(e).__name__}: {str(e)[-1500:]}")
+        return
+    if not out:
+        res.broke("correspondence TIE spot check", "no spot-check group of harness/tie_selftest.py is covered by the GenTie modules of GEN_DEPS")
+    for g, (n, bad) in sorted(out.items()):
+        for i in range(n):
+            res.count(("tie_spot", g, res.seed, i), kind="tie_spot")
+            res.bump("tie_spot", g)
+        if bad:
+            res.broke(f"correspondence TIE {g}", f"generated definition(s) of group {g} disagree with the running Python function on "
+                                                 f"{len(bad)} of {n} spot-check cases: indices {bad[:10]} (build/TIE/{PROP}.v)")
+
+
 def correspond(res):
     del UNIFORM_CASES[:]
     from rpylib.grid.spatial import CTMCGrid
     from stepmeasure import random_dyadic_axis
     rng = random.Random(res.seed)
+    _tie_spot(res)
     thorough = res.tier == "thorough"
     groups = []
 
